@@ -16,7 +16,7 @@ CFG = dict(
          "result while the second is let through first whenever it gets that far; each caller's reply must be the model's reply to ITS request; "
          "`hw` = the real AbacoSource on a scripted packet producer and the real LanceroSource on a simulated card (getNextBlock launches an "
          "assembler goroutine per call), started/stopped through the real SourceControl: blocks, 1-5 requests of different kinds (each answered once, replies = model), more "
-         "blocks (progress), Stop - or, one case per quick run, the Abaco packet stream ending by itself; "
+         "blocks (progress), Stop - or, one case per quick run, the Abaco packet stream ending by itself; further source kinds of `hw`: the real RoachSource over loopback UDP (ConfigureRoachSource + sender goroutine) and the simulated sources through their RPCs; half of the `hw` cases and 5 fixed ones (one per source kind) are pixel-map histories: op M npix loads a map, WriteControl START/STOP and other requests follow; the request semantics say what START answers per source kind (pixels = nchan / channelsPerPixel: 2 for Lancero, 1 otherwise; every channel number needs a pixel: ROACH and simulated sources number from 0 and are always refused; a refusal unloads the map); "
          "`timing` = every gate site gated and a seeded scheduler choosing when 1-4 callers, 0-2 Stops, "
          "blocks and the source's own end happen; `fault` = comment file uncreatable, data-drop file uncreatable while a block is processed, WriteControl START below a base path so long that the run directory / only the experiment-state file cannot be created (then a request, a block, a second START), pixel map vs "
          "channel numbers, Lancero mix requests through the real request consumer (indices, list lengths). Each reply is compared with the Lean request "
@@ -65,6 +65,7 @@ THEOREMS = [
     ("DastardV.Props.C11", "DastardV.C11.C11_reply_is_own"),
     ("DastardV.Props.C11", "DastardV.C11.C11_buffered_reply_can_be_foreign"),
     ("DastardV.Props.C11", "DastardV.C11.C11_after_end_error"),
+    ("DastardV.Props.C11", "DastardV.C11.C11_misfit_map_refused"),
     ("DastardV.Props.C11", "DastardV.C11.C11_mutex_with_blocks"),
     ("DastardV.Props.C11", "DastardV.C11.C11_no_wedge"),
     ("DastardV.Props.C11", "DastardV.C11.C11_no_crash_partial"),
